@@ -20,8 +20,9 @@ class Captured:
 class _Body(httpx.AsyncByteStream):
     """Response body in pieces; may fail after `fail_after` pieces."""
 
-    def __init__(self, data, piece=None, fail_after=None):
+    def __init__(self, data, piece=None, fail_after=None, exc=None):
         self.data, self.piece, self.fail_after = data, piece, fail_after
+        self.exc = exc or httpx.ReadError
 
     async def __aiter__(self):
         if self.piece is None and self.fail_after is None:
@@ -32,14 +33,21 @@ class _Body(httpx.AsyncByteStream):
         k = 0
         for i in range(0, len(self.data), piece):
             if self.fail_after is not None and k >= self.fail_after:
-                raise httpx.ReadError('injected: connection dropped in mid-body')
+                raise self.exc('injected: connection dropped in mid-body')
             yield self.data[i:i + piece]
             k += 1
         if self.fail_after is not None and k <= self.fail_after:
-            raise httpx.ReadError('injected: connection dropped before the end of the body')
+            raise self.exc('injected: connection dropped before the end of the body')
 
     async def aclose(self):
         pass
+
+
+def read_exc(fault):
+    """Exception class for a connection that goes away while the client waits for / reads the response: a reset
+    (ReadError) or an orderly close by the peer before the message is complete (RemoteProtocolError) - both are what
+    httpx raises for "connection dropped in mid-transfer"."""
+    return httpx.RemoteProtocolError if (fault or {}).get('exc') == 'protocol' else httpx.ReadError
 
 
 class FakeS3(httpx.AsyncBaseTransport):
@@ -102,7 +110,7 @@ class FakeS3(httpx.AsyncBaseTransport):
             # asked to fail after more chunks than were sent: fail once everything was received
             raise httpx.WriteError('injected: connection dropped after the body was sent')
         if fault.get('at') == 'before-response':
-            raise httpx.ReadError('injected: connection dropped before the response')
+            raise read_exc(fault)('injected: connection dropped before the response')
         if fault.get('at') == 'status':
             hdrs = {}
             if fault.get('retry_after') is not None:
@@ -141,7 +149,7 @@ class FakeS3(httpx.AsyncBaseTransport):
             hdrs = {'content-length': str(len(data))}
             if fault.get('no_content_length'):
                 hdrs = {}
-            return httpx.Response(200, headers=hdrs, stream=_Body(data, self.resp_piece, fa), request=request)
+            return httpx.Response(200, headers=hdrs, stream=_Body(data, self.resp_piece, fa, read_exc(fault)), request=request)
         if method == 'DELETE':
             self.objects.pop(key, None)
             return httpx.Response(204, request=request)
@@ -171,7 +179,7 @@ class FakeS3(httpx.AsyncBaseTransport):
         parts.append('</ListBucketResult>')
         data = ''.join(parts).encode('utf-8', 'surrogateescape')
         fa = fault.get('after') if fault and fault.get('at') == 'response-body' else None
-        return httpx.Response(200, headers={'content-type': 'application/xml'}, stream=_Body(data, self.resp_piece, fa),
+        return httpx.Response(200, headers={'content-type': 'application/xml'}, stream=_Body(data, self.resp_piece, fa, read_exc(fault)),
                               request=request)
 
 
